@@ -40,6 +40,16 @@ its argument forms, |=, rebind (1..n paths, nested paths, through ancestors, via
 a rebinder function, with notification off), the constructors, append / extend,
 and copying from a partial pg.Dict as a whole (update / |= / constructor /
 item by item).
+
+JSON conversion is a family of spellings, not one call: drv_json takes the
+container through the JSON value, the JSON string and the files built on it
+(functions, methods, flags, indentation, pg.save / pg.load, pg.open_jsonl) and
+demands that what is read back agrees with the plain reference through the
+whole read API, over the classes of keys (ints of either sign and any size
+next to strings that look like them or like the codec's markers), of values
+and of positions; containers read back from JSON are driven through histories
+again, and the final container of every random history (top level and nested)
+goes through JSON as well.
 """
 import itertools
 import re
@@ -310,6 +320,7 @@ class Session:
     self.r = _copy_plain(init)
     self.x = self._make(init)
     self.base = _copy_plain(init)   # contents at the last (re)sync
+    self.cid_prefix = ''            # put in front of every op's case id
     self.prefix = []                # op sources since the last (re)sync
 
   def _make(self, r):
@@ -335,7 +346,7 @@ class Session:
   def step(self, op, key):
     """Runs one op on both sides, records the case; returns True iff it held."""
     rec, kind = self.rec, self.kind
-    cid = op.cid(self.r)
+    cid = self.cid_prefix + op.cid(self.r)
     before = _copy_plain(self.r)
     if op.ref is None:
       want, self.r = _run(op.src, self.r)
@@ -880,6 +891,7 @@ def drv_list_histories(tier, seed):
         if op.src in ('x *= 2', 'x *= 3', 'x.extend(x)', 'x += x', 'x[0:1] = x') and len(r) > 12:
           continue
       s.step(op, ('rand', seed, h, j))
+    json_after_history(rec, s, ('rand', seed, h), _one_per_family(_JSON_LIVE_PATHS, h))
   return rec.result()
 
 
@@ -1395,7 +1407,7 @@ def drv_dict_histories(tier, seed):
         for j, oi in enumerate(hist):
           s.step(alpha[oi], (init, hist[:j + 1]))
   rnd = rng(seed, 'c02-dict-hist')
-  big = dict_ops(keys=['a', 'b', 0, 1, 'a.b', '[0]', '', True], vals=[5, None, [6, [7]], {'k': {'j': [1]}}])
+  big = dict_ops(keys=['a', 'b', 0, 1, -1, 'a.b', '[0]', '', True], vals=[5, None, [6, [7]], {'k': {'j': [1]}}])
   deep = _dict_deep_ops()
   n_hist = 700 if tier == 'quick' else 12000
   for h in range(n_hist):
@@ -1409,6 +1421,7 @@ def drv_dict_histories(tier, seed):
       else:
         op = rnd.choice(big)
       s.step(op, ('rand', seed, h, j))
+    json_after_history(rec, s, ('rand', seed, h), _one_per_family(_JSON_LIVE_PATHS, h))
   return rec.result()
 
 
@@ -1710,7 +1723,8 @@ def _anc_list_ups(n, triples):
 _ANC_DICT_UPS = (
     [[(k, v)] for k in ('a', 'b', 'new', 0, 1) for v in (5, [6, [7]], {'k': {'j': [1]}}, None, M)]
     + [[('new', 1), ('a', M), (0, [2])], [('c', 1), ('q', 2), ('a', 3)], [(0, [2]), ('new', 1), (1, 3)], [('a', M), ('b', M), (0, M)],
-       [(0, M), ('zz', {'y': 1}), ('b', [9])], [('b', M), ('b2', 4)]])
+       [(0, M), ('zz', {'y': 1}), ('b', [9])], [('b', M), ('b2', 4)],
+       [(-1, 5)], [(-1, {'k': 1}), (0, M), (-2, [7])]])      # negative int keys: '[-1]' in a key path is a key, not an index
 
 
 def drv_nested(tier, seed):
@@ -1797,16 +1811,531 @@ def drv_nested(tier, seed):
               ups = [(i, 'r' if k == 'i' else k, v) for i, k, v in ups]
           op = anc_list_op(recv, tpre, spre, ups, mode, sib)
         else:
-          keys = rnd.sample(['a', 'b', 'new', 0, 1, 'c'], rnd.randint(1, 3))
+          keys = rnd.sample(['a', 'b', 'new', 0, 1, 'c', -1], rnd.randint(1, 3))
           ups = [(k, rnd.choice(_NEST_VALS + [M, M])) for k in keys]
           op = anc_dict_op(recv, tpre, spre, ups, mode, sib, rkind)
         if _M_TOKEN.search(op.src) and rnd_form.random() < 0.4:
           op = marker_variants([op], start=rnd_form.randrange(4), one=True)[0]
       s.step(op, ('rand', seed, h, j))
+    json_after_history(rec, s, ('rand', seed, h), _one_per_family(_JSON_LIVE_PATHS, h))
   return rec.result()
 
 
-DRIVERS = [drv_list_single, drv_list_histories, drv_list_ties, drv_dict_single, drv_dict_histories, drv_nested]
+# ---------------------------------------------------------------------------
+# JSON conversion.
+#
+# "Reading back through ... JSON conversion all agree with that reference."
+# JSON conversion is the whole family: the JSON *value* (pg.to_json /
+# x.to_json / x.sym_jsonify, read with pg.from_json / pg.Dict.from_json /
+# pg.List.from_json), the JSON *string* (pg.to_json_str / x.to_json_str with
+# and without indentation, read with pg.from_json_str) and the *files* built on
+# the string form (pg.save / pg.load, x.save / cls.load, pg.open_jsonl).
+#
+# Oracle.  (1) pg.to_json(x) is the reference itself, made of plain containers
+# only.  (2) Whatever a conversion path reads back is again a symbolic
+# container that agrees with the reference through the *whole* read API
+# (contents with key types and order, items, iteration, len, `in`, get,
+# equality both ways, ...) -- at the root and at the nested container.  (3) The
+# JSON string of the symbolic container is valid JSON, is the same text as the
+# JSON string of the plain reference, and -- where JSON itself can express the
+# contents (string keys only, no tuples) -- json.loads of it is the reference;
+# a JSON text written by the json module for the reference reads back as the
+# reference.  Integer keys have no JSON spelling of their own, so for them the
+# judge of the string form is the way back.
+#
+# Classes: the dict keys (str; int > 0, 0, < 0, beyond 64 bit; an int next to
+# the string of its digits; strings that look like ints, contain key-path
+# syntax, quotes, escapes, non-ASCII; strings that merely *contain* the codec's
+# int-key marker), the values (strings that look like codec markers or JSON
+# literals, special floats, 0 / 0.0 / False / None, big ints, empty and deep
+# containers), the position of the container (top level, value of a dict,
+# element of a list, depth 3, inside a tuple, field of an Object) and the way it
+# was built (constructor, item by item, update + setdefault, pop + re-insert).
+# Bool keys are outside "strings and integers" (bounded/waivers.json) and are
+# left to the value form.  Three classes collide with reserved words of the
+# codec ('_type' key, 'n_:' key prefix, '__tuple__' list head): they have their
+# own ids (json/reserved-word/...).
+# ---------------------------------------------------------------------------
+
+_JMEM = '/mem/c02json'
+_SYM_ROOT = '(type(x) if isinstance(x, (pg.Dict, pg.List)) else pg)'
+
+# (family, path name, statements computing `y` from the symbolic `x` / the plain `R`, needs the plain root)
+_JSON_PATHS = [
+    ('json-value', 'to_json+from_json', 'y = pg.from_json(pg.to_json(x))', False),
+    ('json-value', 'methods', f'y = {_SYM_ROOT}.from_json(x.to_json())', False),
+    ('json-value', 'sym_jsonify+flags',
+     'y = pg.from_json(x.sym_jsonify(hide_default_values=True, hide_frozen=False, use_inferred=True))', False),
+    ('json-value', 'of-plain', 'y = pg.from_json(pg.to_json(R))', True),
+    ('json-str', 'to_json_str+from_json_str', 'y = pg.from_json_str(pg.to_json_str(x))', False),
+    ('json-str', 'method+indent', 'y = pg.from_json_str(x.to_json_str(json_indent=2))', False),
+    ('json-str', 'flags+allow_partial',
+     'y = pg.from_json_str(pg.to_json_str(x, hide_default_values=True), allow_partial=True)', False),
+    ('json-str', 'of-plain', 'y = pg.from_json_str(pg.to_json_str(R))', True),
+    ('json-file', 'pg.save+pg.load', f"pg.save(x, '{_JMEM}/a.json')\ny = pg.load('{_JMEM}/a.json')", False),
+    ('json-file', 'x.save+cls.load',
+     f"x.save('{_JMEM}/b.json', indent=1)\ny = type(x).load('{_JMEM}/b.json')", False),
+    ('json-file', 'open_jsonl',
+     f"with pg.open_jsonl('{_JMEM}/c.jsonl', 'w') as f_:\n f_.add(0)\n f_.add(x)\n"
+     f"with pg.open_jsonl('{_JMEM}/c.jsonl', 'r') as f_:\n y = list(iter(f_))[1]", False),
+]
+# A JSON text that did not come from pyglove (only for contents JSON itself can express).
+_JSON_FOREIGN = ('json-str', 'text-by-json-module',
+                 'y = pg.from_json_str(__import__("json").dumps(R, ensure_ascii=False, indent=3))', True)
+_JSON_FAMILIES = ['json-value', 'json-str', 'json-file']
+_JSON_LIVE_PATHS = [p for p in _JSON_PATHS if not p[3]]
+
+_JSON_WITNESS_HEAD = '''import pyglove as pg
+nan=float('nan');inf=float('inf');M=pg.MISSING_VALUE;Ins=pg.Insertion
+def N(v):
+ if isinstance(v,dict):return {k:N(v[k]) for k in list(v)}
+ if isinstance(v,list):return [N(e) for e in v]
+ if isinstance(v,tuple):return tuple(N(e) for e in v)
+ if hasattr(v,'__next__') or type(v).__name__[:5]=='dict_':return [N(e) for e in v]
+ return v
+NF=lambda y:N(dict(y.sym_items())) if isinstance(y,pg.Object) else N(y)'''
+
+# the observations that do not rely on == of the elements (a NaN read back is another object)
+_NOT_EQ_OBS = {'list(x)', 'dict(x)', 'len', 'iter', 'keys', 'values', 'items', 'getitem', 'getitem+', 'getitem-',
+               'slice[:]', 'get', 'getattr', 'reversed', 'bool', 'to_json'}
+
+
+def _json_kcls(k):
+  if isinstance(k, bool):
+    return 'bool-key'
+  if isinstance(k, int):
+    if k < 0:
+      return 'int-key/negative'
+    if k == 0:
+      return 'int-key/zero'
+    return 'int-key/big' if k >= 2 ** 63 else 'int-key/positive'
+  if k == '_type':
+    return 'reserved-word/_type-key'
+  if k.startswith('n_:'):
+    return 'reserved-word/int-key-prefix'
+  if re.fullmatch(r'[+-]?\d+', k):
+    return 'str-key/looks-like-int'
+  if k == '' or any(c in k for c in '.[]'):
+    return 'str-key/path-syntax'
+  return 'str-key'
+
+
+_JSON_KCLS_ORDER = ['reserved-word/_type-key', 'reserved-word/int-key-prefix', 'bool-key', 'int-key/negative',
+                    'int-key/big', 'int-key/zero', 'int-key/positive', 'str-key/looks-like-int',
+                    'str-key/path-syntax', 'str-key']
+
+
+def _json_cls(r):
+  """The most delicate class of dict key anywhere in the contents `r`."""
+  found = set()
+  def walk(v):
+    if isinstance(v, dict):
+      for k, e in v.items():
+        found.add(_json_kcls(k))
+        walk(e)
+    elif isinstance(v, (list, tuple)):
+      for e in v:
+        walk(e)
+  walk(r)
+  for c in _JSON_KCLS_ORDER:
+    if c in found:
+      return c
+  return 'no-dict-inside'
+
+
+def _json_native(r):
+  """Whether JSON itself can express `r`: string keys only, no tuples."""
+  if isinstance(r, dict):
+    return all(isinstance(k, str) and _json_native(v) for k, v in r.items())
+  if isinstance(r, list):
+    return all(_json_native(e) for e in r)
+  return not isinstance(r, tuple)
+
+
+def _has(r, pred):
+  if pred(r):
+    return True
+  if isinstance(r, dict):
+    return any(_has(v, pred) for v in r.values())
+  if isinstance(r, (list, tuple)):
+    return any(_has(e, pred) for e in r)
+  return False
+
+
+def _is_nan(v):
+  return isinstance(v, float) and v != v
+
+
+def _all_symbolic(y):
+  """Nested plain containers become symbolic ones: no plain list/dict below a value read back."""
+  if isinstance(y, pg.Object):
+    return all(_all_symbolic(v) for _, v in y.sym_items())
+  if isinstance(y, dict):
+    return isinstance(y, pg.Dict) and all(_all_symbolic(v) for v in dict.values(y))
+  if isinstance(y, list):
+    return isinstance(y, pg.List) and all(_all_symbolic(v) for v in list.__iter__(y))
+  if isinstance(y, tuple):
+    return all(_all_symbolic(v) for v in y)
+  return True
+
+
+def _all_plain(j):
+  if isinstance(j, dict):
+    return type(j) is dict and all(_all_plain(v) for v in j.values())
+  if isinstance(j, list):
+    return type(j) is list and all(_all_plain(v) for v in j)
+  return not isinstance(j, pg.Symbolic)
+
+
+def _compile_exec(src):
+  c = _CODE.get(('exec', src))
+  if c is None:
+    c = _CODE[('exec', src)] = compile(src, '<json>', 'exec')
+  return c
+
+
+def _exec_path(stmts, x, R):  # pylint: disable=invalid-name
+  env = dict(_ENV, x=x, R=R)
+  exec(_compile_exec(stmts), env)  # pylint: disable=exec-used
+  return env['y']
+
+
+def _build(src, P):  # pylint: disable=invalid-name
+  """Runs a build source (binding `x`) with the plain contents `P`."""
+  env = dict(_ENV, P=N(P))
+  exec(_compile_exec(src), env)  # pylint: disable=exec-used
+  return env['x']
+
+
+def _root_nf(y):
+  """Plain normal form of a root (an Object root: its fields)."""
+  return N(dict(y.sym_items())) if isinstance(y, pg.Object) else N(y)
+
+
+def _json_cid(fam, cls):
+  return f'json/{cls}' if cls.startswith('reserved-word/') else f'{fam}/{cls}'
+
+
+def json_case(rec, fam, cls, key, x, r, build, path, get='y', target=None, names=None):
+  """One conversion path on one container.
+
+  x: the symbolic root, r: its plain reference (for an Object root: the plain
+  dict of its fields), build: source lines binding `x` (and `R`) for the
+  witness, path: (family, name, statements, needs-R), get: source reaching the
+  nested container under test from the root `y` read back, target: its reference.
+  """
+  _, pname, stmts, _ = path
+  cid = _json_cid(fam, cls)
+  key = (pname,) + tuple(key)
+  head = '\n'.join([_JSON_WITNESS_HEAD, build, stmts])
+  def fail(msg, check):
+    return rec.case(cid, key, False, f'{pname}: {msg}', head + '\n' + check)
+  want = repr(N(r))
+  root_check = f'assert type(y) is type(x) and repr(NF(y)) == {want!r}, (type(y), NF(y))'
+  try:
+    y = _exec_path(stmts, x, N(r))
+  except Exception as e:  # pylint: disable=broad-except
+    return fail(f'raised {type(e).__name__}: {e} (reference contents {r!r})', root_check)
+  try:
+    got = repr(_root_nf(y))
+  except Exception as e:  # pylint: disable=broad-except
+    got = f'raised {type(e).__name__}'
+  if got != want or type(y) is not type(x):
+    return fail(f'read back {type(y).__name__} {got}, reference {type(x).__name__} {want}', root_check)
+  if not _all_symbolic(y):
+    return fail(f'a plain list/dict below the value read back: {y!r}', 'assert False, "plain container below y"')
+  checks = [] if isinstance(x, pg.Object) else [('y', y, r, 'List' if isinstance(r, list) else 'Dict')]
+  if target is not None and get != 'y':
+    try:
+      ty = eval(get, dict(_ENV, y=y))  # pylint: disable=eval-used
+    except Exception as e:  # pylint: disable=broad-except
+      return fail(f'{get} raised {type(e).__name__}: {e}', f'{get}')
+    checks.append((get, ty, target, 'List' if isinstance(target, list) else 'Dict'))
+  for gsrc, c, cr, kind in checks:
+    if not isinstance(c, pg.List if kind == 'List' else pg.Dict):
+      return fail(f'{gsrc} is a {type(c).__name__}', f'assert isinstance({gsrc}, pg.{kind}), type({gsrc})')
+    bad = _observe(c, cr, kind, names=names)
+    if bad is not None:
+      _, name, osrc, ogot, owant = bad
+      return fail(f'{gsrc} read back: observation {name}: got {ogot}, reference {owant} (reference contents {cr!r})',
+                  f'x = {gsrc}\ntry: got = ("ok", repr(N(eval({osrc!r}))))\n'
+                  f'except Exception as e: got = ("exc", type(e).__name__)\nassert got == {owant!r}, got')
+  return rec.case(cid, key, True)
+
+
+def json_text_case(rec, cls, key, x, r, build):
+  """The JSON value and the JSON string themselves (not the way back)."""
+  import json  # pylint: disable=g-import-not-at-top
+  head = '\n'.join([_JSON_WITNESS_HEAD, 'import json', build])
+  is_obj = isinstance(x, pg.Object)
+  want = repr(N(r))
+  # (1) the JSON value is the reference, in plain containers
+  msg = ''
+  try:
+    j, j2 = pg.to_json(x), x.to_json()
+    if repr(j) != repr(j2):
+      msg = f'pg.to_json(x) is {j!r}, x.to_json() is {j2!r}'
+    elif not is_obj and not _has(r, lambda v: isinstance(v, tuple)) and repr(j) != want:
+      msg = f'pg.to_json(x) is {j!r}, reference {want}'
+    elif not _all_plain(j):
+      msg = f'pg.to_json(x) holds symbolic values: {j!r}'
+  except Exception as e:  # pylint: disable=broad-except
+    msg = f'to_json raised {type(e).__name__}: {e}'
+  check = 'j = pg.to_json(x)\nassert repr(j) == repr(x.to_json())\n'
+  if not is_obj and not _has(r, lambda v: isinstance(v, tuple)):
+    check += f'assert repr(j) == {want!r}, j\n'
+  check += 'assert "pyglove" not in repr([type(v) for v in (j.values() if isinstance(j, dict) else j)]), j'
+  rec.case(_json_cid('json-value', cls), ('to_json',) + tuple(key), not msg, msg, head + '\n' + check)
+  # (2) the JSON string: valid JSON; the same text by function and method, and as for the plain
+  #     reference; the indented text holds the same value; json.loads gives the reference
+  msg = ''
+  try:
+    s = pg.to_json_str(x)
+    back = None
+    try:
+      back = json.loads(s)
+    except ValueError as e:
+      msg = f'pg.to_json_str(x) is not JSON: {s!r} ({e})'
+    if not msg and x.to_json_str() != s:
+      msg = f'x.to_json_str() is {x.to_json_str()!r}, pg.to_json_str(x) is {s!r}'
+    if not msg and repr(json.loads(pg.to_json_str(x, json_indent=2))) != repr(back):
+      msg = f'the indented JSON string does not hold the value of the compact one {s!r}'
+    if not msg and not is_obj:
+      sp = pg.to_json_str(N(r))
+      if sp != s:
+        msg = f'pg.to_json_str(x) is {s!r}, of the plain reference {sp!r}'
+    if not msg and not is_obj and _json_native(r) and repr(back) != want:
+      msg = f'json.loads(pg.to_json_str(x)) is {back!r}, reference {want}'
+  except Exception as e:  # pylint: disable=broad-except
+    msg = f'to_json_str raised {type(e).__name__}: {e}'
+  check = 's = pg.to_json_str(x)\nassert x.to_json_str() == s\n'
+  if not is_obj:
+    check += 'assert s == pg.to_json_str(R), (s, pg.to_json_str(R))\n'
+    if _json_native(r):
+      check += 'assert repr(json.loads(s)) == repr(R), json.loads(s)\n'
+  check += 'assert repr(json.loads(pg.to_json_str(x, json_indent=2))) == repr(json.loads(s))'
+  rec.case(_json_cid('json-str', cls), ('to_json_str',) + tuple(key), not msg, msg, head + '\n' + check)
+
+
+# Dict contents by class of key; list contents (and dicts of them) by class of value.
+_JSON_DICTS = [
+    ('str-key', {'a': 1, 'b': [1, {'c': None}], 'c': {'d': 'v'}}),
+    ('int-key/positive', {1: 'a', 12: 'b'}),
+    ('int-key/positive', {'k': 0, 7: [1, {3: 'x'}]}),
+    ('int-key/zero', {0: 'a'}),
+    ('int-key/zero', {'a': 1, 0: {0: 2}}),
+    ('int-key/negative', {-1: 'a'}),
+    ('int-key/negative', {-12: 'far', 3: 'r', -1: 'l', 'k': 0}),
+    ('int-key/negative', {'a': 1, -7: [1, {-8: {}}]}),
+    ('int-key/negative', {'a': [[{'b': [{-1: [0, {-2: {-3: 1}}]}]}]]}),      # deep below str keys
+    ('int-key/big', {2 ** 63: 1, 10 ** 30: 3}),
+    ('int-key/negative', {-2 ** 70: 2, -2 ** 63 - 1: 1}),
+    ('int-key/negative', {2: 'a', -1: 'b', 'x': 'c', 1: 'd', 0: 'e', -3: 'f'}),      # signs mixed: the order
+    ('int-key/negative', {1: 'i', '1': 's', -1: 'n', '-1': 'm', 0: 'z', '0': 'y', '-0': 'w'}),   # next to the strings of their digits
+    ('int-key/positive', {1: 'i', '1': 's', '01': 't', 10: 'u', '10': 'v'}),
+    ('str-key/looks-like-int', {'0': 1, '-1': 2, '007': 3, '+5': 4}),
+    ('str-key/path-syntax', {'a.b': 1, '[0]': 2, '': 3, 'a[0]': {'': 4}}),
+    ('str-key', {'\xe9': 1, 'k"q': 2, 'new\nline': 3, ' ': 4, 'tab\t': 5, '\\': 6, "'": 7, ' ': 8}),
+    # keys that merely contain the codec's markers
+    ('str-key', {'xn_:1': 1, 'n_': 2, 'n:1': 3, 'N_:1': 4, ' n_:1': 5, 'n_;1': 6, '_n_:1': 7, 'type': 8, '__type': 9}),
+    ('reserved-word/_type-key', {'_type': 'x'}),
+    ('reserved-word/int-key-prefix', {'n_:1': 1}),
+    ('reserved-word/int-key-prefix', {'n_:a': 1, 'n_:': 2}),
+]
+_JSON_VALUES = [
+    ('values/codec-marker-like-str', ['n_:5', 'n_:-1', '_type', 'n_:', '__tuple__x', ['x', '__tuple__']]),
+    ('values/json-literal-like-str', ['null', 'true', 'NaN', '{"a": 1}', '[1]', '"', '1']),
+    ('values/special-float', [float('nan'), float('inf'), float('-inf'), -0.0, 1e308, 5e-324, 0.1]),
+    ('values/equal-but-distinct', [None, True, False, 0, 0.0, 1, 1.0, '', '0']),
+    ('values/big-int', [2 ** 64, -2 ** 70, 2 ** 63 - 1, -2 ** 63]),
+    ('values/non-ascii-and-escapes', ['\xe9', ' ', 'a"b', 'x\ny', '\\', '\x00', '\U0001f600']),
+    ('values/empty-containers', [[], {}, [[]], [{}], {'a': {}}, {'a': []}]),
+    ('values/deep', [[[[[[{'a': [{'b': [{'c': [0]}]}]}]]]]]]),
+    ('reserved-word/__tuple__-list-head', [['__tuple__', 1]]),
+]
+
+# positions: name, embed(t) -> plain root, source building the symbolic root from P, source reaching the target from y
+_JSON_POS = [
+    ('top', lambda t: t, 'x = pg.{kind}(P)', 'y'),
+    ('in-dict', lambda t: {'k': t, 'z': 0}, 'x = pg.Dict(P)', "y['k']"),
+    ('in-list', lambda t: [0, t], 'x = pg.List(P)', 'y[1]'),
+    ('depth-3', lambda t: {'p': [{'q': t}, 1]}, 'x = pg.Dict(P)', "y['p'][0]['q']"),
+    ('in-tuple', lambda t: [(1, t)], 'x = pg.List(P)', 'y[0][1]'),
+    ('in-object', lambda t: {'v': t, 'w': [t]}, _HOLDER_SRC + '\nx = Holder(**P)', 'y.v'),
+]
+
+# other ways to arrive at the contents (D: pg.Dict / dict, L: pg.List / list); the reference is built by the same recipe
+_JSON_DICT_BUILDS = [
+    ('item-by-item', 'x = D()\nfor k_ in P: x[k_] = P[k_]'),
+    ('update+setdefault',
+     'x = D()\nx.update({k_: P[k_] for k_ in list(P)[::2]})\nfor k_ in list(P)[1::2]: x.setdefault(k_, P[k_])'),
+    ('pop+re-insert', 'x = D(P)\nk_ = next(iter(P))\nv_ = x.pop(k_)\nx[k_] = v_'),
+]
+_JSON_LIST_BUILDS = [
+    ('append-each', 'x = L()\nfor v_ in P: x.append(v_)'),
+    ('insert-front', 'x = L()\nfor v_ in P: x.insert(0, v_)'),
+    ('slice+extend', 'x = L([0, 0])\nx[0:2] = P[:1]\nx.extend(P[1:])\nx += []'),
+]
+
+
+def _one_per_family(paths, n):
+  out = []
+  for fi, f in enumerate(_JSON_FAMILIES):
+    ps = [p for p in paths if p[0] == f]
+    out.append(ps[(n + fi) % len(ps)])
+  return out
+
+
+class JsonSession(Session):
+  """A Session whose symbolic container is read back from JSON (at the start and at every re-sync)."""
+
+  def __init__(self, rec, kind, init, path, key):
+    self.path, self.key = path, key
+    super().__init__(rec, kind, init)
+    self.cid_prefix = 'loaded-from-json/'
+
+  def _make(self, r):
+    x = _fresh(self.kind, r)
+    try:
+      y = _exec_path(self.path[2], x, N(r))
+      if isinstance(y, pg.List if self.kind == 'List' else pg.Dict) and _raw_equal(y, r, self.kind):
+        return y
+      msg = f'read back {y!r}'
+    except Exception as e:  # pylint: disable=broad-except
+      msg = f'raised {type(e).__name__}: {e}'
+    self.rec.case(_json_cid(self.path[0], _json_cls(r)), (self.path[1],) + tuple(self.key), False,
+                  f'{self.path[1]} of {r!r}: {msg}',
+                  '\n'.join([_JSON_WITNESS_HEAD, f'R = {N(r)!r}', f'x = pg.{self.kind}(R)', self.path[2],
+                             f'assert type(y) is type(x) and repr(N(y)) == {repr(N(r))!r}, y']))
+    return x
+
+  def _ctor(self):
+    return f'R = {N(self.base)!r}\nx = pg.{self.kind}(R)\n{self.path[2]}\nx = y'
+
+
+def json_after_history(rec, s, key, paths):
+  """The final container of a history through JSON (the class of its contents from the contents)."""
+  r = N(s.r)
+  if _has(r, _is_nan):
+    return
+  cls = _json_cls(r)
+  kind = s.kind
+  short = f'R = {r!r}\nx = pg.{kind}(R)'
+  for path in paths:
+    if cls == 'bool-key' and path[0] != 'json-value':
+      continue      # (bool keys are outside "strings and integers": bounded/waivers.json)
+    key2 = ('after-history',) + tuple(key)
+    probe = Recorder('C02', '', '')
+    json_case(probe, path[0], cls, key2, s.x, r, short, path)
+    if not probe.fail:
+      rec.case(_json_cid(path[0], cls), (path[1],) + key2, True)
+      continue
+    # A witness from the final contents alone if they show the failure as well; else the whole history.
+    f = next(iter(probe.fail.values()))
+    fresh = Recorder('C02', '', '')
+    json_case(fresh, path[0], cls, key2, _fresh(kind, r), r, short, path)
+    wit = f['witness']
+    if not fresh.fail:
+      ctor = s._ctor().replace(_NP_SRC + '\n', '')  # pylint: disable=protected-access
+      lines = [f'x = pg.{ctor}({N(s.base)!r})' if ctor in ('List', 'Dict') else ctor]
+      lines += ['def run(s_):\n try:exec(s_,globals())\n except Exception:pass']
+      lines += [f'run({p!r})' for p in s.prefix]
+      wit = wit.replace(short, '\n'.join(lines + [f'R = {r!r}']), 1)
+    rec.case(f['case_id'], (path[1],) + key2, False, 'after a history: ' + f['message'], wit)
+
+
+def drv_json(tier, seed):
+  """JSON conversion of symbolic containers, in every spelling, vs the plain reference."""
+  quick = tier == 'quick'
+  rec = Recorder(
+      'C02', 'JSON conversion of pg.List / pg.Dict (value, string, files) vs the plain reference',
+      scope=(f'{len(_JSON_DICTS)} dicts over the classes of keys (str, int >0 / 0 / <0 / beyond 64 bit, ints next to the strings of '
+             f'their digits, path syntax, escapes, non-ASCII, strings containing the codec markers) and {len(_JSON_VALUES)} lists '
+             f'(and dicts of them) over the classes of values; {len(_JSON_POS)} positions (top, in a dict, in a list, depth 3, in a '
+             f'tuple, field of an Object); built by the constructor and by 3 mutation recipes; {len(_JSON_PATHS) + 1} conversion paths '
+             '(to_json / from_json as functions and methods, sym_jsonify with flags, to_json_str / from_json_str plain, '
+             'indented, with flags, pg.save / pg.load, x.save / cls.load, pg.open_jsonl, a JSON text written by the json '
+             'module; each also for the plain reference; quick: all paths at the top level, one per family elsewhere); the value '
+             'read back must agree with the reference through the whole read API, the JSON string must be valid JSON equal to '
+             'that of the reference; containers read back from JSON then driven through seeded random histories (length <= 8) '
+             'of the single-op alphabets (keys incl. negative ints); bool keys only in the value form'))
+  try:
+    pg.io.mkdirs(_JMEM, exist_ok=True)
+  except Exception:  # pylint: disable=broad-except
+    pass
+  targets = list(_JSON_DICTS)
+  for c, l in _JSON_VALUES:
+    targets.append((c, l))
+    if not c.startswith('reserved-word/'):
+      targets.append((c, {f'k{i}': v for i, v in enumerate(l)}))
+  for ti, (cls, t) in enumerate(targets):
+    kind = 'List' if isinstance(t, list) else 'Dict'
+    names0 = _NOT_EQ_OBS if _has(t, _is_nan) else set(n_ for n_, _, _ in _LIST_OBS + _DICT_OBS)
+    for pi, (pos, embed, mk, get) in enumerate(_JSON_POS):
+      P = embed(t)  # pylint: disable=invalid-name
+      # (JSON has no tuples: nothing to compare the JSON value of a tuple with)
+      names = names0 - {'to_json'} if pos == 'in-tuple' else names0
+      mk_src = mk.format(kind=kind)
+      build = f'P = R = {N(P)!r}\n{mk_src}'
+      try:
+        x = _build(mk_src, P)
+      except Exception as e:  # pylint: disable=broad-except
+        rec.case(_json_cid('json-build', cls), (pos, ti), False, f'cannot build ({pos}): {type(e).__name__}: {e}',
+                 _JSON_WITNESS_HEAD + '\n' + build)
+        continue
+      obj = pos == 'in-object'
+      paths = [p for p in _JSON_PATHS if not (obj and p[3])]
+      if _json_native(P) and not obj:
+        paths = paths + [_JSON_FOREIGN]
+      if pos != 'top' and quick:
+        paths = _one_per_family(paths, ti + pi)
+      for path in paths:
+        json_case(rec, path[0], cls, (pos, ti), x, P, build, path, get=get, target=t, names=names)
+      if pos == 'top' or not quick or (ti + pi) % 3 == 0:
+        json_text_case(rec, cls, (pos, ti), x, P, build)
+    # the same contents arrived at by mutations (the reference by the same recipe on a plain container)
+    if cls.startswith('reserved-word/'):
+      continue
+    for bi, (bname, bsrc) in enumerate(_JSON_DICT_BUILDS if kind == 'Dict' else _JSON_LIST_BUILDS):
+      sym_src = bsrc.replace('D(', 'pg.Dict(').replace('L(', 'pg.List(')
+      try:
+        x = _build(sym_src, t)
+        r = _build(bsrc.replace('D(', 'dict(').replace('L(', 'list('), t)
+      except Exception as e:  # pylint: disable=broad-except
+        rec.case(_json_cid('json-build', cls), (bname, ti), False, f'cannot build ({bname}): {type(e).__name__}: {e}',
+                 f'{_JSON_WITNESS_HEAD}\nP = {N(t)!r}\n{sym_src}')
+        continue
+      build = f'P = {N(t)!r}\n{sym_src}\nR = {N(r)!r}'
+      for path in (_JSON_PATHS if not quick else _one_per_family(_JSON_PATHS, ti + bi)):
+        json_case(rec, path[0], cls, (bname, ti), x, r, build, path, names=names0)
+      json_text_case(rec, cls, (bname, ti), x, r, build)
+
+  # Containers that came out of JSON are symbolic containers without a value
+  # spec like any other: histories over them, and through JSON again at the end.
+  rnd = rng(seed, 'c02-json-hist')
+  live_paths = [p for p in _JSON_PATHS if not p[3]]
+  dops = dict_ops(keys=['a', 'b', 0, 1, -1, -12, 'a.b', '', '0', '-1'], vals=[5, None, [6, [7]], {-2: {'j': [1]}}])
+  lops = (list_write_ops(-3, 3, [None, 2, -1], 2, vals=[5, 'v', None, [6, [7]], {-1: 8}], slices=True, multi=False)
+          + list_read_ops(-3, 3, [None, -1], [0, 5, None]))
+  d_inits = [{}, {'a': 1, -1: 'n', 0: 'z'}, {-3: {'x': [1, 2], -4: None}, 'b': 0}, {0: 1, 1: 2, -1: 3, 'a': {'b': -1}}]
+  l_inits = [[], [0, 1, 2], [{-1: 1}, [0, {0: 'z', -2: []}], 2], [[0, 1], {'a': 1}, 2]]
+  n_hist = 90 if quick else 3000
+  for h in range(n_hist):
+    kind = 'Dict' if h % 3 else 'List'
+    init = rnd.choice(d_inits if kind == 'Dict' else l_inits)
+    path = live_paths[h % len(live_paths)]
+    s = JsonSession(rec, kind, init, path, key=('json-hist', seed, h))
+    ops = dops if kind == 'Dict' else lops
+    for j in range(rnd.randint(3, 8)):
+      op = rnd.choice(ops)
+      if kind == 'List' and len(s.r) > 12 and ('*=' in op.src or 'extend(x)' in op.src or '+= x' in op.src or '= x' in op.src):
+        continue
+      s.step(op, ('json-hist', seed, h, j))
+    json_after_history(rec, s, ('json-hist', seed, h), [path])
+  return rec.result()
+
+
+DRIVERS = [drv_list_single, drv_list_histories, drv_list_ties, drv_dict_single, drv_dict_histories, drv_nested, drv_json]
 
 
 def replay(rec):
